@@ -38,6 +38,7 @@ func runC18(c *Ctx, r *Report) {
 	c18Header(c, r, "C18.R3")
 	c18Sizes(c, r, "C18.R4")
 	c18Tiling(c, r, "C18.R5")
+	c18Chunks(c, r, "C18.R6")
 }
 
 // c18Header evaluates MessageHeader.FromBytes/ToBytes for all 256 byte values.
